@@ -864,7 +864,15 @@ impl World {
         while !self.handles.is_empty() {
             self.drop_injector(0);
         }
-        if let Some(n) = self.nucleo.take() {
+        if let Some(mut n) = self.nucleo.take() {
+            // let the background worker go idle first: `Nucleo::drop` gives the pool one wall-clock
+            // second to release the worker lock and panics otherwise, which an overloaded
+            // machine could exceed while a freshly spawned run is still queued
+            for _ in 0..400 {
+                if !n.tick(25).running {
+                    break;
+                }
+            }
             for s in 0..=self.cur {
                 // matcher + snapshot let go of everything
                 let cnt = stream_handles(&self.reg, s);
